@@ -800,6 +800,9 @@ func (rr *runRec) containerOptions() []mpb.ContainerOption {
 	} else {
 		rr.mem = &memWriter{rr: rr, failAt: sc.OutFailAt}
 		opts = append(opts, mpb.WithOutput(rr.mem), mpb.WithWidth(sc.Width))
+		if sc.NilOut {
+			opts = append(opts, mpb.WithOutput(nil)) // frames are discarded: only for checks that do not read them
+		}
 		switch sc.Mode {
 		case "auto":
 			opts = append(opts, mpb.WithAutoRefresh(), mpb.WithRefreshRate(time.Duration(sc.RefreshUS)*time.Microsecond))
